@@ -9,7 +9,18 @@ from ..common import Report, pmap
 from ..e2e import base_scenario, directed
 
 FAMILY = r"^move\.(outcome|alive_in_water|no_resurrection|shape)|^inv\.dead_stay_dead|^files\.dead_stay_dead"
-DRIVERS = {"e2e-coast": ("harness.e2e", "run_e2e", "LadimTrace", FAMILY)}
+FAMILY_T = r"^track\.alive_in_water|^diff\.horizontal|^run\.crashed|^lattice|^setup\.valid"
+DRIVERS = {"e2e-coast": ("harness.e2e", "run_e2e", "LadimTrace", FAMILY),
+           "tracker-diffusion-coast": ("harness.trackdrv", "track_trace", "TrackTrace", FAMILY_T)}
+
+
+def diffusion_scenarios(tier, seed):
+    """the real Tracker with horizontal diffusion (scripted lattice draws) among land cells and next to the open boundary:
+    the random displacement must be subject to the same kill / cancel / move rules as the advective one"""
+    from ..trackdrv import scenario
+    rng = random.Random(seed + 23)
+    return [scenario(rng, horiz_diff=True, vert_diff=rng.random() < 0.25, vadv=False, advect=rng.random() < 0.7, land=True, flat=True)
+            for _ in range(600 if tier == "thorough" else 150)]
 
 
 def scenarios(tier, seed):
@@ -26,10 +37,15 @@ def run(tier, seed):
     traces = pmap("harness.e2e", "run_e2e", scs)
     rep.add_tv("e2e-coast", "LadimTrace", scs, traces, tlc.validate_traces("LadimTrace", traces, batch_events=1500), family=FAMILY)
     rep.require_counts("e2e-coast", {"moved": 200, "killed": 20, "cancelled": 20})
+    ds = diffusion_scenarios(tier, seed)
+    dtr = pmap("harness.trackdrv", "track_trace", ds)
+    rep.add_tv("tracker-diffusion-coast", "TrackTrace", ds, dtr, tlc.validate_traces("TrackTrace", dtr), family=FAMILY_T)
+    rep.require_counts("tracker-diffusion-coast", {"tkilled": 10, "tcancelled": 10})
     rep.nontrivial = len({repr((s["M"], s["fm"], s["rows"])) for s in scs if s["cls"]["nsteps"] >= 3})
     rep.rule = ("10 x 9 grids with 6-13 random land cells, strong uniform flow in a random direction (0.35-0.55 cell per step), releases in "
                 "several sea cells, EF/RK2/RK4, scripted kills and freezes; non-trivial = distinct (mask, flow, releases) with >= 3 steps; "
-                "the run is vacuous (exit 2) unless moved/killed/cancelled outcomes were each matched often enough")
+                "the run is vacuous (exit 2) unless moved/killed/cancelled outcomes were each matched often enough; plus tracker steps with "
+                "horizontal diffusion switched on (scripted draws) among land cells and next to the margin of the valid region")
     rep.assumptions = ["interval semantics: within 4/65536 cell of the grid margin or of a cell edge either outcome is accepted (DESIGN 3c)",
                        "the velocities the tracker was given are taken from the recording forcing; their correctness is C02/C03"]
     return rep
